@@ -7,7 +7,7 @@ CHECKS = {
  "C12": dict(
   technique="explicit-state model checking: exhaustive DFS with state-digest dedup over all message sequences <= depth on the real ucdao msg server, lock-step ledger-map reference model",
   engine="E1",
-  text="Every sequence (quick: <=3, thorough: <=5 messages) over an alphabet of ~110 fund/transfer/ratio/amount messages among 3 accounts (sender=recipient included) and 2 denominations is executed on branches of the real deliver state; in every reached state the sum/total/module-balance/index invariants are evaluated and every transition is compared with a ledger-map reference model. Bounded-exhaustive, not a proof.",
+  text="Three start states - the empty ledger, and the ledger as the module's InitGenesis leaves it for a genesis listing balances with the total given and with the total omitted - then every sequence (quick: <=3, thorough: <=5 messages) over an alphabet of ~110 fund/transfer/ratio/amount messages among 3 accounts (sender=recipient included) and 2 denominations is executed on branches of the real deliver state; in every reached state the sum/total/module-balance/index invariants are evaluated and every transition is compared with a ledger-map reference model. Bounded-exhaustive, not a proof.",
   note="Trusted: cosmos-sdk store/bank, the harness' branch hook (baseapp overlay) and msg-router dispatch mirroring baseapp.runMsgs; amounts are small integers, ratios from a 4-value grid.",
   design="DESIGN.md §3 C12"),
  "C13": dict(
@@ -19,7 +19,7 @@ CHECKS = {
  "C17": dict(
   technique="exhaustive grid enumeration of the real CalculateBaseFee/EndBlock against a math/big reference plus explicit-state exploration of block sequences through real EndBlock/BeginBlock",
   engine="E3",
-  text="Full cartesian product of boundary values (base fee, block gas limit incl. unlimited, elasticity, denominator, min gas price, g around the target) evaluated on the real keeper and compared with a transcription of the statement; monotonicity checked on every adjacent g pair; EndBlock gas-figure clamp on a full grid; all block sequences <= 3 (thorough 4) over 8-12 gas figures on 3 parameter fixtures against the recurrence.",
+  text="Full cartesian product of boundary values (base fee, block gas limit incl. unlimited, elasticity, denominator, min gas price, g around the target) evaluated on the real keeper and compared with a transcription of the statement; monotonicity checked on every adjacent g pair; EndBlock gas-figure clamp on a full grid; all block sequences <= 3 (thorough 4) over 8-12 injected gas figures on 3 parameter fixtures against the recurrence; and all sequences <= 3 (thorough 4) of blocks carrying real Cosmos / Ethereum transactions (7 block contents, base fee active from the start or activated at the second block): stored figure == max(sum of gas limits x multiplier, gas used) and the next base fee follows from it.",
   note="Monotonicity required only where base >= floor(min gas price) (the statement is self-inconsistent below; recorded as observation). T=0 outside the domain. Virtual block boundary in the history part.",
   design="DESIGN.md §3 C17"),
  "C09": dict(
@@ -55,7 +55,7 @@ CHECKS = {
  "C07": dict(
   technique="exhaustive grid enumeration of fee/gas parameters through the real DeliverTx on branches against math/big reference arithmetic and hand-computed EVM gas constants",
   engine="E1",
-  text="7 (thorough 10) fee-market fixtures (base fee disabled/7/1e9; min gas price 0/below/equal/fractional; multiplier 0/0.5/1) x {legacy, access-list, dynamic-fee, two-message eth, Cosmos, Cosmos+DynamicFee option} x gas limits x prices around the floor (floor-1, floor, floor+1, base-1, ...) x tips x {transfer, refund-earning SSTORE clear, revert, out of gas}: acceptance implies fee >= ceil(mgp x gasLimit) and feeCap >= baseFee; for executed eth txs gasUsed = max(EVM gas after refunds, floor(mult x limit)) <= limit, sender pays exactly value + gasUsed x effectivePrice, the collector receives exactly that, response GasUsed/GasWanted agree.",
+  text="7 (thorough 10) fee-market fixtures (base fee disabled/7/1e9; min gas price 0/below/equal/fractional; multiplier 0/0.5/1) x {legacy, access-list, dynamic-fee, two-message eth with every ordered pair of prices, Cosmos, Cosmos+DynamicFee option} x gas limits x prices around the floor (floor-1, floor, floor+1, base-1, ...) x tips x {transfer, refund-earning SSTORE clear, revert, out of gas}: acceptance implies fee >= ceil(mgp x gasLimit) and feeCap >= baseFee, for every message of an envelope on its own; for executed eth txs gasUsed = max(EVM gas after refunds, floor(mult x limit)) <= limit, sender pays exactly value + gasUsed x effectivePrice, the collector receives exactly that, response GasUsed/GasWanted agree.",
   note="EVM gas of the four fixed programs is computed by hand from the yellow-paper schedule. Declared fee is what the acceptance clause is checked against (deducted < floor on the Cosmos route is an observation). DeliverTx only.",
   design="DESIGN.md §3 C07"),
  "C16": dict(
@@ -103,8 +103,8 @@ CHECKS = {
  "C14": dict(
   technique="explicit-state exploration: exhaustive enumeration of event sequences <= depth on virtual blocks (real BeginBlock/EndBlock) with a conservation oracle around every block boundary",
   engine="E1",
-  text="From a fixture with bonded, unbonding and redelegating stake on two validators: every sequence <= 3 (thorough 4) over double-sign evidence for either validator (early infraction height, so unbonding and redelegation entries are slashed too), a 7-block downtime window, delegate / undelegate / redelegate, a vetoed proposal, a proposal without quorum and an under-funded proposal (deposits in two denominations, all three burn flags on), and plain blocks. Around every block boundary: supply of both denominations unchanged; the coins that left the bonded pool, not-bonded pool and gov account without reaching an account equal the growth of the community pool and of the distribution module account; every registered invariant holds.",
-  note="Coinomics off, community tax 0, zero fees. 'Burned' is derived by conservation, not from implementation figures. Virtual block boundary.",
+  text="From a fixture with bonded, unbonding and redelegating stake on two validators and a community pool holding a non-integer amount in two denominations (an odd amount of fees was distributed with a 2% community tax): every sequence <= 3 (thorough 4) over double-sign evidence for either validator (early infraction height, so unbonding and redelegation entries are slashed too), a 7-block downtime window, delegate / undelegate / redelegate, a vetoed proposal, a proposal without quorum and an under-funded proposal (deposits in two denominations, all three burn flags on), and plain blocks. Around every block boundary: supply of both denominations unchanged; the coins that left the bonded pool, not-bonded pool and gov account without reaching an account equal the growth of the community pool and of the distribution module account; every registered invariant holds.",
+  note="Coinomics off, no fees after the fixture's one distribution. 'Burned' is derived by conservation, not from implementation figures. Virtual block boundary.",
   design="DESIGN.md §3 C14"),
  "C15": dict(
   technique="bounded-exhaustive enumeration of block histories executed with real blocks; every registered invariant evaluated on the committed state after every block",
@@ -115,13 +115,13 @@ CHECKS = {
  "C19": dict(
   technique="bounded-exhaustive enumeration of block histories, each followed by an export -> InitChain on a fresh node -> export cycle with a leaf-by-leaf diff of the two genesis documents, a query battery and invariants",
   engine="E2",
-  text="167 histories (quick): idle chain, every template (21 base + 4 governance flows) alone exported after settling and exported right after its block, a quarter (thorough: all) of ordered pairs plus curated pairs whose second step consumes what the first created (liquidate then full redeem / convert / liquidate again, delegate then undelegate, ...), thorough: one chain of all templates. A's export is imported into a fresh Haqq by real InitChain + Commit, exported again and the two JSON documents are compared leaf by leaf (per module / field); 27 gRPC queries are compared on both nodes; each named module's exported state must pass its own ValidateGenesis; all invariants must hold on the imported node.",
+  text="202 histories (quick): idle chain, every template (21 base + 4 governance flows) alone exported after settling and exported right after its block, a quarter (thorough: all) of ordered pairs plus curated pairs whose second step consumes what the first created (liquidate then full redeem / convert / liquidate again, delegate then undelegate, ...), the five life-cycle chains exported after (every second; thorough: every) block, thorough: one chain of all templates. A's export is imported into a fresh Haqq by real InitChain + Commit, exported again and the two JSON documents are compared leaf by leaf (per module / field); 27 gRPC queries plus by-key queries for every token pair (by denomination and by contract), liquid denomination and DAO holder of the exporting node are compared on both nodes; each named module's exported state must pass its own ValidateGenesis; all invariants must hold on the imported node.",
   note="ibc 09-localhost latest_height is the exporting height by definition and is excluded from the equality. ValidateGenesis of third-party modules (ibc's connection-localhost) is not demanded. A history that empties the validator set (halted chain) is skipped and counted.",
   design="DESIGN.md §3 C19"),
  "C10": dict(
-  technique="explicit-state exploration: exhaustive enumeration of conversion sequences <= depth over five token pairs on the real msg servers and DeliverTx, backing invariants in every state and an exact-or-nothing step oracle",
+  technique="explicit-state exploration (DFS, state-digest dedup with the model's counters in the digest): exhaustive enumeration of conversion and IBC sequences <= depth over six token pairs on the real msg servers, DeliverTx and IBC handlers, backing invariants in every state and an exact-or-nothing step oracle",
   engine="E1",
-  text="Fixture: one coin-origin pair (module-owned ERC20 deployed by RegisterCoin) and four ERC20-origin pairs: an honest ERC20MinterBurnerDecimals, the repository's ERC20MaliciousDelayed and ERC20DirectBalanceManipulation (deployed from their shipped bytecode and registered by RegisterERC20) and a synthesised token that emits Transfer(x, module, n) logs without moving balances. Every sequence <= 3 (thorough 4) over 63 operations: convertCoin / convertERC20 x {1, half, all, all+1}, ERC20 transfer to the module address (hook path), bank send of the paired denomination (wrapper), pair toggle, holder burn. In every state: coin-origin ERC20 supply <= escrowed coins and escrow - supply == holder burns; ERC20-origin coin supply <= tokens escrowed by the module. Every operation moves exactly the amount between the two representations or changes nothing. Part B (IBC legs): a sixth pair is registered for the IBC voucher of the coin-origin denomination; every sequence <= 4 (thorough 5) over 30 operations - ibcSend of {coin-origin, voucher going home, ERC20-origin} x {1, all of coins+tokens, all+1} to a valid or garbage receiver (real MsgTransfer wrapper: ERC20 -> coin before sending), ibcRecv (erc20 middleware: coin -> ERC20 on arrival), ack, timeout (refund, then coin -> ERC20), conversions of both users, pair toggles: sender debited / recipient credited / refunded by exactly the amount across both representations, every rejected step changes nothing, backing invariants in every state.",
+  text="Fixture: one coin-origin pair (module-owned ERC20 deployed by RegisterCoin) and four ERC20-origin pairs: an honest ERC20MinterBurnerDecimals, the repository's ERC20MaliciousDelayed and ERC20DirectBalanceManipulation (deployed from their shipped bytecode and registered by RegisterERC20) and a synthesised token that emits Transfer(x, module, n) logs without moving balances. Every sequence <= 3 (thorough 4) over 63 operations: convertCoin / convertERC20 x {1, half, all, all+1}, ERC20 transfer to the module address (hook path), bank send of the paired denomination (wrapper), pair toggle, holder burn. In every state: coin-origin ERC20 supply <= escrowed coins and escrow - supply == holder burns; ERC20-origin coin supply <= tokens escrowed by the module. Every operation moves exactly the amount between the two representations or changes nothing. Part B (IBC legs): a sixth pair is registered for the IBC voucher of the coin-origin denomination; every sequence <= 4 (thorough 5) over 30 operations - ibcSend of {coin-origin, voucher going home, ERC20-origin} x {1, all of coins+tokens, all+1} to a valid or garbage receiver (real MsgTransfer wrapper: ERC20 -> coin before sending), ibcRecv (erc20 middleware: coin -> ERC20 on arrival), ack, timeout (refund, then coin -> ERC20), conversions of both users, pair toggles: sender debited / recipient credited / refunded by exactly the amount across both representations, every rejected step changes nothing, backing invariants in every state. A second IBC family (B2) runs the same legs over the two misbehaving tokens, with hook-path deposits, a send of exactly the coin balance, and the transferFrom of the third party the malicious token approves on every transfer.",
   note="IBC legs loop packets back to the same chain over two channel ends written on ibc-go's localhost connection; one packet in flight at a time. A transfer to the module address of a disabled pair is let through by design and only over-collateralises (observation).",
   design="DESIGN.md §3 C10"),
 }
